@@ -22,6 +22,7 @@ from sa import core, aggtables as AT
 from sa.pyfront import Program
 
 RULES = {
+    "R-C04-h": "a region that receives weight or fact values is never an integer region nor typed after the weights (a weighted valid count that wraps to 0 makes a fully valid cell missing)",
     "R-C04-g": "aggregate constructors do not overwrite the caller's arrays (imported from the C17 analysis): zero-filling the caller's NaN-marked rows in place erases the missing markers, so a later aggregate over the same array - in another report format or the other cube - sees no missing cell",
     "R-C04-f": "the counters the array cube fills (valid / missing counts, per fill branch incl. several fact columns) are the same reducers as the index cube's: the shared missing-cell predicate then reads the same quantities in both cubes",
     "R-C04-e": "every near-zero test that decides 'this differenced counter is zero' (adjust_zeros' default, ffunc_count/xfunc_count.reduce) uses isclose(x, 0) with NumPy's default absolute tolerance, as documented - not a narrower one",
@@ -62,6 +63,12 @@ def main(tier):
         if o.rule == "R-C17-a":
             rep.add("R-C04-g", o.where, "[%s] %s" % (o.rule, o.construct), o.status, o.detail, True, o.witness)
     rep.floor("R-C04-g", 10, k17)
+    # R-C04-h: the regions behind the missing-cell tests keep what is stored into them (region kind, shared with C03)
+    CK = AT.Collector()
+    nk = AT.rule_region_kind(prog, CK, "R-C04-h")
+    for rule, status, where, cons, detail, wit in CK.items:
+        rep.add(rule, where, cons, status, detail, True, wit)
+    rep.floor("R-C04-h", 60, nk)
     rep.floor("R-C04-a", 100, n_a)
     rep.floor("R-C04-b", 100, n_b)
     rep.floor("R-C04-c", 20, n_c)
